@@ -289,15 +289,18 @@ def variants(world, tier="quick", only=None):
                 if only and not any(o in v.name for o in only):
                     continue
                 out.append(v)
-    # size measures: the callback does not depend on the operator except through symbol / relation tests
+    # size measures: every operator (a callback may look at the node: is_symbol / is_constant / is_theory_relation ...)
     for m in MEASURES:
-        for Kop, k in ((S.SYMBOL, 0), (S.INT_CONSTANT, 0), (S.AND, 2), (S.AND, 3), (S.NOT, 1), (S.LE, 2), (S.EQUALS, 2),
-                       (S.BV_ULT, 2), (S.ITE, 3), (S.FORALL, 1), (S.FUNCTION, 2), (S.PLUS, 2), (S.BV_ADD, 2),
-                       (S.STR_CONTAINS, 2), (S.ARRAY_SELECT, 2)):
-            v = SizeVariant(world, Kop, k, m)
-            if only and not any(o in v.name for o in only):
+        for Kop in range(S.NOPS):
+            if Kop == S.ALGEBRAIC_CONSTANT:
                 continue
-            out.append(v)
+            for k in ARITIES.get(Kop, (S.FIXED_ARITY.get(Kop),)):
+                if k is None:
+                    continue
+                v = SizeVariant(world, Kop, k, m)
+                if only and not any(o in v.name for o in only):
+                    continue
+                out.append(v)
     return out
 
 
